@@ -99,6 +99,28 @@ Theorem c04_pages_of_flat_calls_follow_the_transclusion_rule :
 Proof. exact flat_pages. Qed.
 Print Assumptions c04_pages_of_flat_calls_follow_the_transclusion_rule.
 
+(* "Arguments are expanded in the caller's frame": a call whose arguments hold text and flat calls (to other templates;
+   a named argument has a plain name).  The value bound to each parameter is the argument with every call in it replaced
+   by that call's result (FlatCall.bind_nested: unnamed ones numbered and verbatim, named ones trimmed after the
+   replacement), and the outer template's body is instantiated with these values - for every library, every such call
+   and all sufficiently large fuel. *)
+Theorem c04_calls_in_arguments_are_expanded_in_the_callers_frame :
+  forall pfnames lib opts name args,
+    nested_ok pfnames lib name args = true -> o_tfn opts = [] -> o_pfn opts = [] ->
+    exists F, forall fuel, (F <= fuel)%nat ->
+      expand_T pfnames lib opts fuel [FTitle] true (chars name :: args) = Some (nested_result lib name args).
+Proof. exact nested_call. Qed.
+Print Assumptions c04_calls_in_arguments_are_expanded_in_the_callers_frame.
+
+(* {{o| {{i|x}} |k= {{i|y}} }} with Template:o = "<{{{1}}}/{{{k}}}>" and Template:i = "[{{{1}}}]": "< [x] /[y]>" *)
+Example c04_nested_example :
+  let lib := [mktpl [79] [Ch 60; A [chars [49]]; Ch 47; A [chars [107]]; Ch 62] false;
+              mktpl [73] [Ch 91; A [chars [49]]; Ch 93] false] in
+  let args := [[Ch 32; T [chars [105]; chars [120]]; Ch 32]; [Ch 107; Ch 61; Ch 32; T [chars [105]; chars [121]]; Ch 32]] in
+  nested_ok [] lib [111] args = true /\
+  codes (nested_result lib [111] args) = [60; 32; 91; 120; 93; 32; 47; 91; 121; 93; 62].
+Proof. split; vm_compute; reflexivity. Qed.
+
 (* #if with plain arguments, wherever it stands (any expansion path below the depth limit, with or without full
    expansion): the second argument when the first is not blank, else the third; trimmed; absent arguments are empty *)
 Theorem c04_if_with_plain_arguments :
